@@ -224,7 +224,11 @@ func RunBatch(t *testing.T, ch Checker, tier string, batchSeed uint64, from, to 
 				where := "(logs not kept)"
 				if logsA != nil {
 					where = firstLogDifference(logsA, LastLogs)
-					_ = writeJSON(fmt.Sprintf("%s/nondeterminism-%s-%d.json", outDir, ch.Prop(), seed), map[string]interface{}{"case": c, "record": logsA, "replay": LastLogs})
+					dd := outDir
+					if d := os.Getenv("VERIF_DIAG_DIR"); d != "" {
+						dd = d
+					}
+					_ = writeJSON(fmt.Sprintf("%s/nondeterminism-%s-%d.json", dd, ch.Prop(), seed), map[string]interface{}{"case": c, "record": logsA, "replay": LastLogs})
 				}
 				br.Infra = append(br.Infra, fmt.Sprintf("seed %d: schedule trace differs between record and replay (%s vs %s): %s", seed, o.TraceHash, o2.TraceHash, where))
 			} else if o2.LogHash != o.LogHash && ch.Prop() != "C12" && ch.Prop() != "C13" {
